@@ -113,7 +113,7 @@ def build(case, with_mapping=True):
         # the dict may list the labels in any order (not necessarily the order of vdims)
         np.random.default_rng(case["seed"] + case["drop"]).shuffle(items)
         kw["vdim_mapping"] = dict(items) if with_mapping else {}
-    f = df.Field(mesh, nvdim=k, value=arr, dtype={"int": np.int64, "complex": np.complex128}.get(case["dtype"]),
+    f = df.Field(mesh, nvdim=k, value=np.array(arr, copy=True), dtype={"int": np.int64, "complex": np.complex128}.get(case["dtype"]),
                  valid=gen.make_mask(case["mask"], n), unit=case["unit"], **kw)
     return mesh, f, arr, coa
 
